@@ -69,6 +69,7 @@ def case_st(draw):
         'I': draw(st.sampled_from([2.5, 5, 25])), 'T': draw(st.sampled_from([2.5, 5, 20])),
         'faults': draw(st.lists(st.one_of(http_fault, ws_fault), max_size=2)),
         'in_handler': draw(st.sampled_from([None, None, None, 'connect', 'message', 'disconnect'])),
+        'server_greets': draw(st.sampled_from([0, 0, 1, 2])),
         'steps': draw(st.lists(step_st, max_size=6)),
     }
 
@@ -80,6 +81,7 @@ def check_case(case, ctx=None):
     cfg = {'ping_interval': case['I'], 'ping_timeout': case['T'], 'http_compression': False}
     H = TClientHarness if impl == 'thread' else AClientHarness
     h = H(cfg, faults=case['faults'])
+    h.world.app_log.connect_sends = ['greeting%d' % i for i in range(case.get('server_greets', 0))]
     cl = h.client
     I, T = case['I'], case['T']
     horizon = I + T + 5 + 5 + 2
@@ -95,7 +97,7 @@ def check_case(case, ctx=None):
                 if impl == 'thread':
                     cl.disconnect()
                 else:
-                    h.loop.create_task(cl.disconnect())
+                    return cl.disconnect()          # awaited by the handler itself
         if ih:
             h.log.on_event = on_event
 
@@ -233,7 +235,9 @@ def check_case(case, ctx=None):
                     # handler afterwards; one received later may not
                     t_disc = [t for t, e, _ in h.log.events[:j] if e == 'disconnect'][-1]
                     tc = carrier_time(h, evs[j][1]) if evs[j][0] == 'message' else None
-                    if evs[j][0] != 'message' or tc is None or tc > t_disc:
+                    same_path = bool(fired_ih) and ih == 'connect' and \
+                        abs(t_disc - fired_ih[0]) < 1e-9      # no other thread involved
+                    if evs[j][0] != 'message' or tc is None or tc > t_disc or same_path:
                         raise V(impl, 'event-after-disconnect', evs[j][0] + '|' + (
                             'polling' if not h.log.ws or not h.log.ws[-1]['recv'] else 'ws'),
                             'event %r fired after the disconnect event (carrier received at '
